@@ -101,10 +101,10 @@ class BoundingBox:
     def includes(self, point: Point) -> bool:
         """Returns True if the point is included in this bounding box."""
         return (
-            self.bl.x >= point.x
-            and self.tr.x <= point.x
-            and self.bl.y >= point.y
-            and self.tr.y <= point.y
+            self.bl.x <= point.x
+            and self.tr.x >= point.x
+            and self.bl.y <= point.y
+            and self.tr.y >= point.y
         )
 
     def overlaps(self, other: "BoundingBox") -> bool:
